@@ -441,13 +441,30 @@ def term_definite_difference(a, b, depth=0):
             ea = tr.tr(a)
             side[0] = 1
             eb = tr.tr(b)
+            if tr.atoms:
+                return None     # something other than loop variables, parameters, data reads and numbers: not an index expression
             only_a, only_b = used[0] - used[1], used[1] - used[0]
             if (any(_is_enum_elem(x_) for x_ in only_a) and any(_is_moving_sub(x_) for x_ in only_b)) or \
                     (any(_is_enum_elem(x_) for x_ in only_b) and any(_is_moving_sub(x_) for x_ in only_a)):
                 return None
-            if sp.expand(ea - eb) != 0:
-                return f"index {sp.sstr(ea)} vs {sp.sstr(eb)}"
-            return None         # the same index written differently: not a difference at all
+            if sp.expand(ea - eb) == 0:
+                return None         # the same index written differently: not a difference at all
+            # data reads (subscripts / attributes) are free quantities only as long as both sides read the SAME ones, or one
+            # side reads none at all (a pure expression in loop variables, parameters and numbers cannot track the data);
+            # two different reads may well hold the same value
+            da = {x_ for x_ in used[0] if x_[0] in ("sub", "attr")}
+            db = {x_ for x_ in used[1] if x_[0] in ("sub", "attr")}
+            if da != db and da and db:
+                oa, ob = sorted(da - db, key=repr), sorted(db - da, key=repr)
+                if len(oa) != len(ob) or depth > 6:
+                    return None
+                rest = list(ob)
+                for x_ in oa:
+                    hit = next((y_ for y_ in rest if term_definite_difference(x_, y_, depth + 1)), None)
+                    if hit is None:
+                        return None
+                    rest.remove(hit)
+            return f"index {sp.sstr(ea)} vs {sp.sstr(eb)}"
         except Exception:  # noqa
             pass
         if ka != kb:
